@@ -263,6 +263,30 @@ class ModelMixin2:
                 st.facts.add((f[0],) + tuple(mapping.get(x, x) if isinstance(x, int) else x for x in f[1:]))
         return mv(tmpl)
 
+    def import_value(self, v: Val, src: State, dst: State, mark: int) -> Val:
+        """Copy the heap objects younger than *mark* reachable from v in state *src* into *dst*."""
+        syms = self.reachable(v, src, mark)
+        if not syms:
+            return v
+        saved = {}
+        dst.serial = max(dst.serial, max(syms), src.serial)
+        for sym in syms:
+            if sym in dst.heap:
+                saved[sym] = dst.heap[sym]
+            dst.heap[sym] = src.heap[sym]
+        ts_src = src.mon.get('textsyms') or {}
+        ts_dst = dst.mon.setdefault('textsyms', {})
+        for sym in syms:
+            if sym in ts_src and sym not in ts_dst:
+                ts_dst[sym] = ts_src[sym]
+        out = self.instantiate_template(v, syms, dst)
+        for sym in syms:
+            if sym in saved:
+                dst.heap[sym] = saved[sym]
+            else:
+                del dst.heap[sym]
+        return out
+
     def reachable(self, v: Val, st: State, since: int):
         """Symbols reachable from v that were created after serial *since*."""
         out = []
@@ -406,6 +430,9 @@ class ModelMixin2:
         st.mon['advsym'] = m
         return Ref('idx', sym)
 
+    def loop_exit(self, st, depth, spec, count):
+        pass
+
     def loop_done(self, st: State, depth):
         for name in ('itlog', 'adv', 'advsym'):
             m = st.mon.get(name)
@@ -439,6 +466,26 @@ class ModelMixin2:
             if kind == 'dict':
                 return [((TupleV(kv) if not isinstance(kv, Raise) else kv), s2) for kv, s2 in self.ev_all([e.key, e.value], s)]
             return self.ev(e.elt, s)
+
+        def joiner(states):
+            """Join states that differ only in the set of element templates collected so far
+            (union of the templates): keeps the number of loop-head states linear instead of a powerset."""
+            groups = {}
+            for tagk, s in states:
+                k = (tagk, s.key(ignore=('%comp',)))
+                if k not in groups:
+                    groups[k] = (tagk, s)
+                    continue
+                base = groups[k][1]
+                pend = base.frame.env.get('%comp', TupleV(()))
+                have = {repr(self._vk(x, base)) for x in pend.items}
+                for t in s.frame.env.get('%comp', TupleV(())).items:
+                    if repr(self._vk(t, s)) not in have:
+                        t2 = self.import_value(t, s, base, base_mark)
+                        pend = TupleV(pend.items + (t2,))
+                        have.add(repr(self._vk(t2, base)))
+                base.frame.env['%comp'] = pend
+            return list(groups.values())
 
         def run(gi, s):
             g = gens[gi]
@@ -478,13 +525,14 @@ class ModelMixin2:
                                     if isinstance(v, Raise):
                                         outs.append((('raise', v.exc), s5))
                                         continue
+                                    self.forget_facts(s5, self._elem_mark(elem, s5))
                                     pend = s5.frame.env.get('%comp', TupleV(()))
                                     key = self._vk(v, s5)
                                     if not any(self._vk(x, s5) == key for x in pend.items):
                                         s5.frame.env['%comp'] = TupleV(pend.items + (v,))
                                     outs.append(('next', s5))
                     return outs
-                exits, escapes = self.run_loop(it, s1, body, e)
+                exits, escapes = self.run_loop(it, s1, body, e, joiner=joiner)
                 for ctl, s2 in escapes:
                     if isinstance(ctl, tuple) and ctl[0] == 'raise':
                         res.append((ctl, s2))
@@ -526,6 +574,32 @@ class ModelMixin2:
             else:
                 final.append((Ref('list', sym), s))
         return final
+
+    def _elem_mark(self, elem, st: State) -> int:
+        syms = []
+
+        def walk(v):
+            if isinstance(v, Ref):
+                syms.append(v.sym)
+            elif isinstance(v, TupleV):
+                for x in v.items:
+                    walk(x)
+        walk(elem)
+        return (min(syms) - 1) if syms else st.serial
+
+    def forget_facts(self, st: State, mark: int):
+        """Drop path facts (absent/present children, blank texts, lookup memo) learned about symbols
+        younger than *mark*: they describe one generic element of a comprehension, whose template is
+        re-instantiated without them anyway.  Forgetting is an over-approximation."""
+        st.first = {k: v for k, v in st.first.items() if k[0] <= mark}
+        st.lookups = {k: v for k, v in st.lookups.items() if k[0] <= mark}
+        for name in ('sym:textnull',):
+            m = st.mon.get(name)
+            if m and any(k > mark for k in m):
+                st.mon[name] = {k: v for k, v in m.items() if k <= mark}
+        m = st.mon.get('nth')
+        if m and any(k[1] > mark for k in m):
+            st.mon['nth'] = {k: v for k, v in m.items() if k[1] <= mark}
 
     def _comp_mark(self, it, st):
         if isinstance(it, Ref) and it.sym in st.heap:
